@@ -223,6 +223,25 @@ class C09(Prop):
                 for sid in used_socks:
                     if not w.sockets[sid].closed_by_seq(w.events[rec.ev1 - 1][0] if rec.ev1 else 0):
                         out.append(viol("connection-of-failed-call-kept", rec, disc="swallowed", sock=sid))
+            # likewise a counter operation answered with a line that is neither a number nor NOT_FOUND (or with an
+            # error line) has failed, whatever the call then hands back to its caller
+            if rec.outcome == "return" and rec.method in ("incr", "decr") and rec.received:
+                st_ = scn["steps"][rec.step]
+                bad_reply = False
+                for f in rec.fired:
+                    if f[0] != "reply" or f[1] != 0:
+                        continue
+                    spec = next((x for x in st_.get("faults", ()) if x["at"] == ["reply", 0]), None)
+                    if f[2] == "errline":
+                        bad_reply = True
+                    elif f[2] == "garbage" and spec is not None:
+                        from ..world import GARBAGE_LINES
+                        line = GARBAGE_LINES[spec.get("v", 0) % len(GARBAGE_LINES)].strip()
+                        bad_reply = not line.isdigit() and line != b"NOT_FOUND"
+                if bad_reply:
+                    for sid in used_socks:
+                        if not w.sockets[sid].closed_by_seq(w.events[rec.ev1 - 1][0] if rec.ev1 else 0):
+                            out.append(viol("connection-of-failed-call-kept", rec, disc="swallowed-counter", sock=sid))
             # ... and never carries a later command
             for sid in socks_used(w, rec, ("sendall",)):
                 s = w.sockets[sid]
